@@ -56,8 +56,12 @@ let parse_obs (toks : string list) : (head res * n list) option =
     | _ -> raise (Bad "obs") in
   match o, rest with
   | None, _ -> None
-  | Some r, [";"; "left"; l; _w] -> Some (r, bytes_of_tok l)
+  | Some r, ";" :: "left" :: l :: _w :: ([] | ";" :: "rq" :: _) -> Some (r, bytes_of_tok l)
   | _ -> raise (Bad "obs tail")
+
+(* the request-level part of a `mk` observation: "; rq <method> <path> <query|-> H<k> name value .." | "; rq -" | "; rq panic" *)
+let rq_of_obs (toks : string list) : string list option =
+  let rec go = function ";" :: "rq" :: r -> Some r | _ :: r -> go r | [] -> None in go toks
 
 let split_on_tok (sep : string) (toks : string list) : string list list =
   let rec go cur acc = function
@@ -72,7 +76,7 @@ let rec parse_fields k toks = if k = 0 then ([], toks) else match toks with
       ({ f_name = bytes_of_tok a; f_ows1 = bytes_of_tok b; f_value = bytes_of_tok c; f_ows2 = bytes_of_tok d } :: fs, r')
     | _ -> raise (Bad "fields")
 
-let run_try url targets echo n rd data (extra : head res -> n list -> string option) otoks =
+let run_try ?(rq : string list option) url targets echo n rd data (extra : head res -> n list -> string option) otoks =
   let cap = nat_of_int n in
   let b = { fb_rd = nat_of_int rd; fb_data = data } in
   let (r, b') = try_read url b in
@@ -90,7 +94,19 @@ let run_try url targets echo n rd data (extra : head res -> n list -> string opt
        else (match extra ir left with
            | Some what -> "oracle=fail@" ^ what
            | None -> "oracle=ok uc=" ^ string_of_int (List.length canon))) in
-  Printf.printf "%s%s ; %s | %s\n" echo m (pr_buf cap b') verdict
+  let rqm = (match rq with
+      | None -> ""
+      | Some _ ->
+        (* model: the head parsed by the model, then the header processing of read_http_request *)
+        " ; rq " ^ (if n <> 8192 then "-" else match r with
+          | Ok h -> (match request_of_head h.h_method h.h_headers with
+              | QOk q -> tok_of_bytes h.h_method ^ " " ^ tok_of_bytes h.h_path ^ " " ^
+                         (match h.h_query with None -> "-" | Some x -> tok_of_bytes x) ^
+                         " H" ^ string_of_int (List.length q.rq_headers) ^
+                         String.concat "" (List.map (fun (a, b) -> " " ^ tok_of_bytes a ^ " " ^ tok_of_bytes b) q.rq_headers)
+              | QErr _ -> "-")
+          | _ -> "-")) in
+  Printf.printf "%s%s ; %s%s | %s\n" echo m (pr_buf cap b') rqm verdict
 
 let valid_setup n rd (data : n list) =
   (n = 32 || n = 200 || n = 8192) && rd + List.length data <= n && not (rd > 0 && data = [])
@@ -115,8 +131,27 @@ let () =
          let tail = (match r with [x] -> bytes_of_tok x | _ -> raise (Bad "mk tail")) in
          let data = render_head m t fs @ crlf2 @ tail in
          if not (valid_setup n 0 data) then print_string (echo ^ "badcase | oracle=fail@badcase\n")
-         else run_try url targets echo n 0 data
-             (fun ir left -> if oracle_c02_roundtrip m t fs tail ir left then None else Some "must-accept-head-not-parsed-to-its-parts") otoks
+         else
+           let rq = (match rq_of_obs otoks with Some r -> r | None -> raise (Bad "no rq part")) in
+           (* request level, on the implementation's own answers: when the head was accepted, the request exposes the
+              same method / path / query and exactly the head's fields minus the consumed ones, in the order sent; it
+              may be refused only if the header processing of the model refuses these fields too *)
+           let rq_check (ir : head res) : string option =
+             if n <> 8192 then None else
+             match ir, rq with
+             | _, ["panic"] | _, "panic" :: _ -> Some "request-level-panic"
+             | Ok h, ["-"] -> (match request_of_head h.h_method h.h_headers with QErr _ -> None | QOk _ -> Some "request-refused-although-head-and-fields-are-fine")
+             | Ok h, mm :: pp :: qq :: hk :: r ->
+               let k = int_of_string (String.sub hk 1 (String.length hk - 1)) in
+               let (hs, _) = take_pairs k r in
+               if bytes_of_tok mm = h.h_method && bytes_of_tok pp = h.h_path
+                  && (if qq = "-" then None else Some (bytes_of_tok qq)) = h.h_query
+                  && oracle_c14_req h.h_headers hs then None else Some "request-does-not-expose-the-head-fields-in-order"
+             | Ok _, _ -> Some "unparsable-rq"
+             | _, ["-"] -> None
+             | _, _ -> Some "request-accepted-although-head-rejected" in
+           run_try ~rq url targets echo n 0 data
+             (fun ir left -> if not (oracle_c02_roundtrip m t fs tail ir left) then Some "must-accept-head-not-parsed-to-its-parts" else rq_check ir) otoks
        | _ -> print_string "? | oracle=badcase\n")
     with
     | Url_miss -> print_string "urlmiss | oracle=fail@urlmiss\n"
